@@ -251,6 +251,12 @@ def expected_non_invariants(rep: Report, tier: str, workers: Any = "auto") -> di
             raise MachineryError(f"FixLoop: expected non-invariant {inv} was not violated ({m.violated}); the hypothesis analysis is wrong")
         rep.model(m, f"expected violation of {inv}: {why}")
         out[inv] = {"violated": True, "why": why, "states_to_counterexample": m.generated}
+    if tier == "thorough":
+        m = run_tlc("FixLoop", cfg_text(constants={"K": 4, "NR": 2, "Limits": {4}, "Lazy": True, "Sticky": False, "EmitRecs": False,
+                                                   "EmitMod": 1, **ALL}, invariants=["IdempotentIfAcyclic", "NoRevisit", "LimitRollback"]),
+                    timeout=3000, workers=workers, heap="8g")
+        expect_model_ok(m, "documented phase behaviour: idempotent under IdemHyp including PostClosed")
+        rep.model(m, "documented phase behaviour (Sticky=FALSE), K=4: IdempotentIfAcyclic holds once PostClosed is assumed")
     return out
 
 
